@@ -84,6 +84,68 @@ theorem Labs.length {c : CDB} : ∀ {ls xs : List Nat}, Labs c ls xs → ls.leng
   | _, _, .nil => rfl
   | _, _, .cons _ t => by simp [Labs.length t]
 
+/-- the class's own answer to "are you empty", for the class stored under label `l` -/
+def TrulyEmpty (u : Universe) (c : CDB) (l : Nat) : Bool := u.empty.getD (c.classes.getD l 0) false
+
+/-- every cached emptiness is the class's own answer -/
+structure CacheOK (u : Universe) (c : CDB) : Prop where
+  len : c.empties.length = c.classes.length
+  ok : ∀ l b, c.empties.getD l none = some b → b = TrulyEmpty u c l
+
+theorem TrulyEmpty.ext {u : Universe} {c c' : CDB} {l : Nat} (he : Ext c c') (hl : l < c.classes.length) :
+    TrulyEmpty u c' l = TrulyEmpty u c l := by
+  obtain ⟨t, e⟩ := he
+  unfold TrulyEmpty
+  rw [e, List.getD_eq_getElem?_getD, List.getD_eq_getElem?_getD, List.getElem?_append_left hl]
+
+theorem setEmpty_cache {u : Universe} {c : CDB} (h : CacheOK u c) (l : Nat) (b : Bool)
+    (hb : l < c.classes.length → b = TrulyEmpty u c l) : CacheOK u (c.setEmpty l b) := by
+  refine ⟨by simp [CDB.setEmpty, h.len], ?_⟩
+  intro l' b' hl'
+  have hcl : (c.setEmpty l b).classes = c.classes := rfl
+  unfold TrulyEmpty
+  rw [hcl]
+  simp only [CDB.setEmpty, List.getD_eq_getElem?_getD] at hl'
+  rw [List.getElem?_set] at hl'
+  split at hl'
+  · rename_i e
+    split at hl'
+    · rename_i hlt
+      simp only [Option.getD_some, Option.some.injEq] at hl'
+      subst e
+      rw [← hl']
+      exact hb (by rw [← h.len]; exact hlt)
+    · simp at hl'
+  · have := h.ok l' b' (by rw [List.getD_eq_getElem?_getD]; exact hl')
+    exact this
+
+theorem isEmpty_truth {u : Universe} {c : CDB} (h : CacheOK u c) (l : Nat) :
+    (c.isEmpty u l).2 = TrulyEmpty u c l ∧ CacheOK u (c.isEmpty u l).1 := by
+  unfold CDB.isEmpty
+  split
+  · rename_i b hb
+    exact ⟨h.ok l b hb, h⟩
+  · exact ⟨rfl, setEmpty_cache h l _ (fun _ => rfl)⟩
+
+theorem getLabel_cache {u : Universe} {c : CDB} (h : CacheOK u c) (x : Nat) : CacheOK u (c.getLabel x).1 := by
+  unfold CDB.getLabel CDB.label?
+  split
+  · exact h
+  · refine ⟨by simp [h.len], ?_⟩
+    intro l b hl
+    simp only [List.getD_eq_getElem?_getD] at hl
+    by_cases hlt : l < c.empties.length
+    · rw [List.getElem?_append_left hlt] at hl
+      have := h.ok l b (by rw [List.getD_eq_getElem?_getD]; exact hl)
+      rw [this]
+      unfold TrulyEmpty
+      simp only [List.getD_eq_getElem?_getD]
+      rw [List.getElem?_append_left (by rw [← h.len]; exact hlt)]
+    · rw [List.getElem?_append_right (by omega)] at hl
+      cases hh : l - c.empties.length with
+      | zero => rw [hh] at hl; simp at hl
+      | succ n => rw [hh] at hl; simp at hl
+
 def allStrats (u : Universe) : List Nat := u.initial ++ u.inferral ++ u.expansion.flatten ++ u.ver ++ u.sym
 
 /-- the event is what a strategy of the pack produces: the labels are those of the rule's parent and children -/
@@ -95,11 +157,6 @@ theorem Genuine.ext {u : Universe} {c c' : CDB} {e : Event} (h : Genuine u c e) 
   obtain ⟨σ, x, r, h1, h2, h3, h4, h5, h6⟩ := h
   exact ⟨σ, x, r, h1, h2, h3.ext he, Labs.ext he h4, h5, h6⟩
 
-structure EI (u : Universe) (s : E2.St) : Prop where
-  gen : ∀ e, e ∈ s.log → Genuine u s.cdb e
-  ql : QL (E2.packOf u) s.q (fun l => l < s.cdb.classes.length)
-  nd : s.cdb.classes.Nodup
-
 /-- the rule `r` (of strategy `σ` applied to class `x`) labelled `start -> ends` in the class database of `s` -/
 structure ArgsOK (u : Universe) (c : CDB) (start : Nat) (ends : List Nat) (r : RuleOut) : Prop where
   prov : ∃ σ x, σ ∈ allStrats u ∧ r ∈ u.apply σ x
@@ -109,8 +166,30 @@ structure ArgsOK (u : Universe) (c : CDB) (start : Nat) (ends : List Nat) (r : R
 theorem ArgsOK.ext {u : Universe} {c c' : CDB} {start : Nat} {ends : List Nat} {r : RuleOut} (h : ArgsOK u c start ends r)
     (he : Ext c c') : ArgsOK u c' start ends r := ⟨h.prov, h.st.ext he, Labs.ext he h.en⟩
 
+/-- the stored key of a rule: its start label and the sorted labels of its children, a child left out only if its class is
+truly empty and the strategy declared its children possibly empty -/
+def KeyClean (u : Universe) (c : CDB) (k : Nat × List Nat) : Prop :=
+  ∃ start ends r, ArgsOK u c start ends r ∧
+    k = (start, E2.sortNat (ends.filter (fun l => !(r.flags.possiblyEmpty && TrulyEmpty u c l))))
+
+theorem KeyClean.ext {u : Universe} {c c' : CDB} {k : Nat × List Nat} (h : KeyClean u c k) (he : Ext c c') : KeyClean u c' k := by
+  obtain ⟨start, ends, r, ha, e⟩ := h
+  refine ⟨start, ends, r, ha.ext he, ?_⟩
+  rw [e]
+  congr 2
+  apply List.filter_congr
+  intro l hl
+  rw [TrulyEmpty.ext he (Labs.lt ha.en l hl)]
+
+structure EI (u : Universe) (s : E2.St) : Prop where
+  gen : ∀ e, e ∈ s.log → Genuine u s.cdb e
+  ql : QL (E2.packOf u) s.q (fun l => l < s.cdb.classes.length)
+  nd : s.cdb.classes.Nodup
+  cache : CacheOK u s.cdb
+  keys : ∀ k, k ∈ s.rules ++ s.eqv → KeyClean u s.cdb k
+
 theorem EI.ext_q {u : Universe} {s : E2.St} (h : EI u s) (q : Q) (hq : QL (E2.packOf u) q (fun l => l < s.cdb.classes.length)) :
-    EI u { s with q := q } := ⟨h.gen, hq, h.nd⟩
+    EI u { s with q := q } := ⟨h.gen, hq, h.nd, h.cache, h.keys⟩
 
 theorem foldl_inv {α β : Type} (f : β → α → β) (I : β → Prop) (l : List α) (b : β) (hb : I b)
     (hf : ∀ b a, a ∈ l → I b → I (f b a)) : I (l.foldl f b) := by
@@ -120,31 +199,158 @@ theorem foldl_inv {α β : Type} (f : β → α → β) (I : β → Prop) (l : L
     rw [List.foldl_cons]
     exact ih (f b x) (hf b x List.mem_cons_self hb) (fun b a ha hI => hf b a (List.mem_cons_of_mem _ ha) hI)
 
+def cleanStep (u : Universe) (r : RuleOut) (acc : E2.St × List Nat) (l : Nat) : E2.St × List Nat :=
+  if r.flags.possiblyEmpty then
+    if (acc.1.cdb.isEmpty u l).2 then
+      (({ acc.1 with cdb := (acc.1.cdb.isEmpty u l).1, q := acc.1.q.setStop l } : E2.St), acc.2)
+    else (({ acc.1 with cdb := (acc.1.cdb.isEmpty u l).1 } : E2.St), acc.2 ++ [l])
+  else (acc.1, acc.2 ++ [l])
+
+/-- the last part of `RuleDBBase.add`: verified flag, then the key goes to the equivalence rules or to the rules -/
+def dbFinal2 (s : E2.St) (start : Nat) (ends : List Nat) (r : RuleOut) : E2.St :=
+  match ends with
+  | [e] =>
+    if r.twoWay then
+      { s with eq := s.eq.addTwoWay start e,
+               eqv := if s.eqv.contains (start, [e]) then s.eqv else s.eqv ++ [(start, [e])],
+               rules := s.rules.filter (fun k => k != (start, [e]) && k != (e, [start])) }
+    else { s with eq := s.eq.addOneWay start e, rules := if s.rules.contains (start, [e]) then s.rules else s.rules ++ [(start, [e])] }
+  | _ => { s with rules := if s.rules.contains (start, ends) then s.rules else s.rules ++ [(start, ends)] }
+
+def dbFinal (s : E2.St) (start : Nat) (ends : List Nat) (r : RuleOut) : E2.St :=
+  dbFinal2 (if r.isVer then { s with eq := s.eq.setVerified start } else s) start ends r
+
+theorem dbAdd_eq (u : Universe) (s : E2.St) (start : Nat) (ends : List Nat) (r : RuleOut) :
+    E2.dbAdd u s start ends r =
+      dbFinal (ends.foldl (cleanStep u r) (({ s with log := s.log ++ [⟨start, ends, r.isVer, r.twoWay⟩] } : E2.St), [])).1 start
+        (E2.sortNat (ends.foldl (cleanStep u r) (({ s with log := s.log ++ [⟨start, ends, r.isVer, r.twoWay⟩] } : E2.St), [])).2) r := by
+  unfold E2.dbAdd dbFinal dbFinal2
+  rfl
+
+theorem cleanFold_spec (u : Universe) (r : RuleOut) (p : Pack) (P : Nat → Prop) : ∀ (ends : List Nat) (acc : E2.St × List Nat),
+    CacheOK u acc.1.cdb → QL p acc.1.q P →
+    (ends.foldl (cleanStep u r) acc).2 = acc.2 ++ ends.filter (fun l => !(r.flags.possiblyEmpty && TrulyEmpty u acc.1.cdb l)) ∧
+    CacheOK u (ends.foldl (cleanStep u r) acc).1.cdb ∧ QL p (ends.foldl (cleanStep u r) acc).1.q P ∧
+    (ends.foldl (cleanStep u r) acc).1.cdb.classes = acc.1.cdb.classes ∧
+    (ends.foldl (cleanStep u r) acc).1.rules = acc.1.rules ∧ (ends.foldl (cleanStep u r) acc).1.eqv = acc.1.eqv ∧
+    (ends.foldl (cleanStep u r) acc).1.log = acc.1.log := by
+  intro ends
+  induction ends with
+  | nil => intro acc hc hq; simp [hc, hq]
+  | cons l ls ih =>
+    intro acc hc hq
+    rw [List.foldl_cons]
+    obtain ⟨t1, t2⟩ := isEmpty_truth hc l
+    have hcls : (acc.1.cdb.isEmpty u l).1.classes = acc.1.cdb.classes := isEmpty_classes u acc.1.cdb l
+    have hte : ∀ c' : CDB, c'.classes = acc.1.cdb.classes → ∀ l', TrulyEmpty u c' l' = TrulyEmpty u acc.1.cdb l' := by
+      intro c' e l'; unfold TrulyEmpty; rw [e]
+    by_cases hp : r.flags.possiblyEmpty = true
+    · by_cases hb : (acc.1.cdb.isEmpty u l).2 = true
+      · have hstep : cleanStep u r acc l =
+            (({ acc.1 with cdb := (acc.1.cdb.isEmpty u l).1, q := acc.1.q.setStop l } : E2.St), acc.2) := by
+          unfold cleanStep; simp [hp, hb]
+        rw [hstep]
+        obtain ⟨a1, a2, a3, a4, a5, a6, a7⟩ := ih (({ acc.1 with cdb := (acc.1.cdb.isEmpty u l).1, q := acc.1.q.setStop l } : E2.St), acc.2) t2 (hq.setStop l)
+        refine ⟨?_, a2, a3, by rw [a4]; exact hcls, a5, a6, a7⟩
+        rw [a1, List.filter_cons]
+        have : (!(r.flags.possiblyEmpty && TrulyEmpty u acc.1.cdb l)) = false := by rw [← t1, hp, hb]; rfl
+        simp only [this, Bool.false_eq_true, ↓reduceIte]
+        congr 1
+        apply List.filter_congr
+        intro l' _
+        rw [hte _ hcls]
+      · have hstep : cleanStep u r acc l = (({ acc.1 with cdb := (acc.1.cdb.isEmpty u l).1 } : E2.St), acc.2 ++ [l]) := by
+          unfold cleanStep; simp [hp, hb]
+        rw [hstep]
+        obtain ⟨a1, a2, a3, a4, a5, a6, a7⟩ := ih (({ acc.1 with cdb := (acc.1.cdb.isEmpty u l).1 } : E2.St), acc.2 ++ [l]) t2 hq
+        refine ⟨?_, a2, a3, by rw [a4]; exact hcls, a5, a6, a7⟩
+        rw [a1, List.filter_cons]
+        have hb' : (acc.1.cdb.isEmpty u l).2 = false := by simpa using hb
+        have : (!(r.flags.possiblyEmpty && TrulyEmpty u acc.1.cdb l)) = true := by rw [← t1, hp, hb']; rfl
+        simp only [this, ↓reduceIte, List.append_assoc, List.singleton_append]
+        congr 2
+        apply List.filter_congr
+        intro l' _
+        rw [hte _ hcls]
+    · have hp' : r.flags.possiblyEmpty = false := by simpa using hp
+      have hstep : cleanStep u r acc l = (acc.1, acc.2 ++ [l]) := by unfold cleanStep; simp [hp']
+      rw [hstep]
+      obtain ⟨a1, a2, a3, a4, a5, a6, a7⟩ := ih (acc.1, acc.2 ++ [l]) hc hq
+      refine ⟨?_, a2, a3, a4, a5, a6, a7⟩
+      rw [a1, List.filter_cons]
+      simp [hp']
+
+theorem dbFinal2_frame (s : E2.St) (start : Nat) (ends : List Nat) (r : RuleOut) :
+    (dbFinal2 s start ends r).log = s.log ∧ (dbFinal2 s start ends r).cdb = s.cdb ∧ (dbFinal2 s start ends r).q = s.q ∧
+    ∀ k, k ∈ (dbFinal2 s start ends r).rules ++ (dbFinal2 s start ends r).eqv → k ∈ s.rules ++ s.eqv ∨ k = (start, ends) := by
+  unfold dbFinal2
+  split
+  · split
+    · refine ⟨rfl, rfl, rfl, ?_⟩
+      intro k hk
+      simp only [List.mem_append] at hk ⊢
+      rcases hk with e | e
+      · exact Or.inl (Or.inl (List.mem_filter.1 e).1)
+      · split at e
+        · exact Or.inl (Or.inr e)
+        · rcases List.mem_append.1 e with e | e
+          · exact Or.inl (Or.inr e)
+          · simp only [List.mem_singleton] at e; exact Or.inr e
+    · refine ⟨rfl, rfl, rfl, ?_⟩
+      intro k hk
+      simp only [List.mem_append] at hk ⊢
+      rcases hk with e | e
+      · split at e
+        · exact Or.inl (Or.inl e)
+        · rcases List.mem_append.1 e with e | e
+          · exact Or.inl (Or.inl e)
+          · simp only [List.mem_singleton] at e; exact Or.inr e
+      · exact Or.inl (Or.inr e)
+  · refine ⟨rfl, rfl, rfl, ?_⟩
+    intro k hk
+    simp only [List.mem_append] at hk ⊢
+    rcases hk with e | e
+    · split at e
+      · exact Or.inl (Or.inl e)
+      · rcases List.mem_append.1 e with e | e
+        · exact Or.inl (Or.inl e)
+        · simp only [List.mem_singleton] at e; exact Or.inr e
+    · exact Or.inl (Or.inr e)
+
+theorem dbFinal_frame (s : E2.St) (start : Nat) (ends : List Nat) (r : RuleOut) :
+    (dbFinal s start ends r).log = s.log ∧ (dbFinal s start ends r).cdb = s.cdb ∧ (dbFinal s start ends r).q = s.q ∧
+    ∀ k, k ∈ (dbFinal s start ends r).rules ++ (dbFinal s start ends r).eqv → k ∈ s.rules ++ s.eqv ∨ k = (start, ends) := by
+  unfold dbFinal
+  obtain ⟨a, b, c, d⟩ := dbFinal2_frame (if r.isVer then { s with eq := s.eq.setVerified start } else s) start ends r
+  have e1 : (if r.isVer then ({ s with eq := s.eq.setVerified start } : E2.St) else s).log = s.log := by split <;> rfl
+  have e2 : (if r.isVer then ({ s with eq := s.eq.setVerified start } : E2.St) else s).cdb = s.cdb := by split <;> rfl
+  have e3 : (if r.isVer then ({ s with eq := s.eq.setVerified start } : E2.St) else s).q = s.q := by split <;> rfl
+  have e4 : (if r.isVer then ({ s with eq := s.eq.setVerified start } : E2.St) else s).rules = s.rules := by split <;> rfl
+  have e5 : (if r.isVer then ({ s with eq := s.eq.setVerified start } : E2.St) else s).eqv = s.eqv := by split <;> rfl
+  refine ⟨by rw [a, e1], by rw [b, e2], by rw [c, e3], ?_⟩
+  intro k hk
+  have := d k hk
+  rw [e4, e5] at this
+  exact this
+
 /-- what `dbAdd` does to the parts of the state the invariants talk about -/
 theorem dbAdd_frame (u : Universe) (s : E2.St) (start : Nat) (ends : List Nat) (r : RuleOut) (p : Pack) (P : Nat → Prop)
-    (hq : QL p s.q P) :
+    (hq : QL p s.q P) (hc : CacheOK u s.cdb) :
     (E2.dbAdd u s start ends r).log = s.log ++ [⟨start, ends, r.isVer, r.twoWay⟩] ∧
-    (E2.dbAdd u s start ends r).cdb.classes = s.cdb.classes ∧ QL p (E2.dbAdd u s start ends r).q P := by
-  unfold E2.dbAdd
-  simp only
-  generalize hres : List.foldl _ (_, []) ends = res
-  have hI : res.1.log = s.log ++ [⟨start, ends, r.isVer, r.twoWay⟩] ∧ res.1.cdb.classes = s.cdb.classes ∧ QL p res.1.q P := by
-    rw [← hres]
-    refine foldl_inv _ (fun (acc : E2.St × List Nat) =>
-      acc.1.log = s.log ++ [Event.mk start ends r.isVer r.twoWay] ∧ acc.1.cdb.classes = s.cdb.classes ∧ QL p acc.1.q P) _ _ ?_ ?_
-    · exact ⟨rfl, rfl, hq⟩
-    · intro acc l _ ⟨h1, h2, h3⟩
-      obtain ⟨s0, cl⟩ := acc
-      simp only at h1 h2 h3 ⊢
-      split
-      · split
-        · exact ⟨h1, by simp only; rw [isEmpty_classes]; exact h2, h3.setStop l⟩
-        · exact ⟨h1, by simp only; rw [isEmpty_classes]; exact h2, h3⟩
-      · exact ⟨h1, h2, h3⟩
-  obtain ⟨s2, cleaned⟩ := res
-  simp only at hI ⊢
-  obtain ⟨h1, h2, h3⟩ := hI
-  split <;> (try split) <;> (try split) <;> simp_all
+    (E2.dbAdd u s start ends r).cdb.classes = s.cdb.classes ∧ QL p (E2.dbAdd u s start ends r).q P ∧
+    CacheOK u (E2.dbAdd u s start ends r).cdb ∧
+    ∀ k, k ∈ (E2.dbAdd u s start ends r).rules ++ (E2.dbAdd u s start ends r).eqv → k ∈ s.rules ++ s.eqv ∨
+      k = (start, E2.sortNat (ends.filter (fun l => !(r.flags.possiblyEmpty && TrulyEmpty u s.cdb l)))) := by
+  rw [dbAdd_eq]
+  obtain ⟨a1, a2, a3, a4, a5, a6, a7⟩ := cleanFold_spec u r p P ends
+    (({ s with log := s.log ++ [⟨start, ends, r.isVer, r.twoWay⟩] } : E2.St), []) hc hq
+  generalize ends.foldl (cleanStep u r) (({ s with log := s.log ++ [⟨start, ends, r.isVer, r.twoWay⟩] } : E2.St), []) = res at *
+  obtain ⟨b1, b2, b3, b4⟩ := dbFinal_frame res.1 start (E2.sortNat res.2) r
+  refine ⟨by rw [b1, a7], by rw [b2, a4], by rw [b3]; exact a3, by rw [b2]; exact a2, ?_⟩
+  intro k hk
+  rcases b4 k hk with e | e
+  · rw [a5, a6] at e; exact Or.inl e
+  · right; rw [e, a1]; rfl
 
 /-- invariant and growth relative to a base state -/
 def Good (u : Universe) (s0 s : E2.St) : Prop := EI u s ∧ Ext s0.cdb s.cdb
@@ -154,40 +360,48 @@ theorem Good.trans {u : Universe} {s0 s1 s2 : E2.St} (h1 : Good u s0 s1) (h2 : G
   ⟨h2.1, h1.2.trans h2.2⟩
 
 theorem Good.of {u : Universe} {s0 s s' : E2.St} (h : Good u s0 s) (hlog : ∀ e, e ∈ s'.log → e ∈ s.log)
-    (hc : s'.cdb.classes = s.cdb.classes) (hq : QL (E2.packOf u) s'.q (fun l => l < s.cdb.classes.length)) : Good u s0 s' := by
+    (hc : s'.cdb.classes = s.cdb.classes) (hq : QL (E2.packOf u) s'.q (fun l => l < s.cdb.classes.length))
+    (hk : ∀ k, k ∈ s'.rules ++ s'.eqv → k ∈ s.rules ++ s.eqv) (hcache : CacheOK u s'.cdb) : Good u s0 s' := by
   have he : Ext s.cdb s'.cdb := ⟨[], by simp [hc]⟩
-  refine ⟨⟨fun e he' => (h.1.gen e (hlog e he')).ext he, ?_, by rw [hc]; exact h.1.nd⟩, h.2.trans he⟩
+  refine ⟨⟨fun e he' => (h.1.gen e (hlog e he')).ext he, ?_, by rw [hc]; exact h.1.nd, hcache,
+    fun k hk' => (h.1.keys k (hk k hk')).ext he⟩, h.2.trans he⟩
   rw [hc]; exact hq
 
 theorem Good.congr {u : Universe} {s0 s s' : E2.St} (h : Good u s0 s) (hlog : s'.log = s.log) (hc : s'.cdb = s.cdb)
-    (hq : s'.q = s.q) : Good u s0 s' :=
-  h.of (by rw [hlog]; exact fun _ x => x) (by rw [hc]) (by rw [hq]; exact h.1.ql)
+    (hq : s'.q = s.q) (hr : s'.rules = s.rules) (hv : s'.eqv = s.eqv) : Good u s0 s' :=
+  h.of (by rw [hlog]; exact fun _ x => x) (by rw [hc]) (by rw [hq]; exact h.1.ql) (by rw [hr, hv]; exact fun _ x => x)
+    (by rw [hc]; exact h.1.cache)
 
-theorem Good.setEmpty {u : Universe} {s0 s : E2.St} (h : Good u s0 s) (l : Nat) (b : Bool) :
+theorem Good.setEmpty {u : Universe} {s0 s : E2.St} (h : Good u s0 s) (l : Nat) (b : Bool)
+    (hb : l < s.cdb.classes.length → b = TrulyEmpty u s.cdb l) :
     Good u s0 { s with cdb := s.cdb.setEmpty l b } :=
-  h.of (fun _ x => x) (by simp [CDB.setEmpty]) h.1.ql
+  h.of (fun _ x => x) (by simp [CDB.setEmpty]) h.1.ql (fun _ x => x) (setEmpty_cache h.1.cache l b hb)
 
 theorem Good.isEmptyCdb {u : Universe} {s0 s : E2.St} (h : Good u s0 s) (l : Nat) :
     Good u s0 { s with cdb := (s.cdb.isEmpty u l).1 } :=
-  h.of (fun _ x => x) (isEmpty_classes u s.cdb l) h.1.ql
+  h.of (fun _ x => x) (isEmpty_classes u s.cdb l) h.1.ql (fun _ x => x) (isEmpty_truth h.1.cache l).2
 
 theorem Good.withQ {u : Universe} {s0 s : E2.St} (h : Good u s0 s) (q : Q) (hq : QL (E2.packOf u) q (fun l => l < s.cdb.classes.length)) :
     Good u s0 { s with q := q } :=
-  h.of (fun _ x => x) rfl hq
+  h.of (fun _ x => x) rfl hq (fun _ x => x) h.1.cache
 
 theorem Good.dbAdd {u : Universe} {s0 s : E2.St} (h : Good u s0 s) {start : Nat} {ends : List Nat} {r : RuleOut}
     (ha : ArgsOK u s.cdb start ends r) : Good u s0 (E2.dbAdd u s start ends r) := by
-  obtain ⟨h1, h2, h3⟩ := dbAdd_frame u s start ends r _ _ h.1.ql
+  obtain ⟨h1, h2, h3, h4, h5⟩ := dbAdd_frame u s start ends r _ _ h.1.ql h.1.cache
   have he : Ext s.cdb (E2.dbAdd u s start ends r).cdb := ⟨[], by simp [h2]⟩
-  refine ⟨⟨?_, by rw [h2]; exact h3, by rw [h2]; exact h.1.nd⟩, h.2.trans he⟩
-  intro e hm
-  rw [h1] at hm
-  rcases List.mem_append.1 hm with e1 | e1
-  · exact (h.1.gen e e1).ext he
-  · simp only [List.mem_singleton] at e1
-    subst e1
-    obtain ⟨σ, x, p1, p2⟩ := ha.prov
-    exact ⟨σ, x, r, p1, p2, ha.st.ext he, Labs.ext he ha.en, rfl, rfl⟩
+  refine ⟨⟨?_, by rw [h2]; exact h3, by rw [h2]; exact h.1.nd, h4, ?_⟩, h.2.trans he⟩
+  · intro e hm
+    rw [h1] at hm
+    rcases List.mem_append.1 hm with e1 | e1
+    · exact (h.1.gen e e1).ext he
+    · simp only [List.mem_singleton] at e1
+      subst e1
+      obtain ⟨σ, x, p1, p2⟩ := ha.prov
+      exact ⟨σ, x, r, p1, p2, ha.st.ext he, Labs.ext he ha.en, rfl, rfl⟩
+  · intro k hk
+    rcases h5 k hk with e | e
+    · exact (h.1.keys k e).ext he
+    · exact KeyClean.ext ⟨start, ends, r, ha, e⟩ he
 
 theorem labelFold (cs : List Nat) : ∀ (c0 : CDB) (ls xs : List Nat), Labs c0 ls xs →
     Ext c0 (cs.foldl (fun (acc : CDB × List Nat) c => ((acc.1.getLabel c).1, acc.2 ++ [(acc.1.getLabel c).2])) (c0, ls)).1 ∧
@@ -212,32 +426,44 @@ theorem labelFold_nodup (cs : List Nat) : ∀ (c0 : CDB) (ls : List Nat), c0.cla
     rw [List.foldl_cons]
     exact ih _ _ (getLabel_nodup c0 c h)
 
+theorem labelFold_cache {u : Universe} (cs : List Nat) : ∀ (c0 : CDB) (ls : List Nat), CacheOK u c0 →
+    CacheOK u (cs.foldl (fun (acc : CDB × List Nat) c => ((acc.1.getLabel c).1, acc.2 ++ [(acc.1.getLabel c).2])) (c0, ls)).1 := by
+  induction cs with
+  | nil => intro c0 ls h; exact h
+  | cons c cs ih =>
+    intro c0 ls h
+    rw [List.foldl_cons]
+    exact ih _ _ (getLabel_cache h c)
+
 theorem labelRule_spec (s : E2.St) (x lbl : Nat) (r : RuleOut) (s' : E2.St) (start : Nat) (ends : List Nat)
     (h : E2.labelRule s x lbl r = some (s', start, ends)) (hx : lab s.cdb lbl x) :
     Ext s.cdb s'.cdb ∧ lab s'.cdb start r.parent ∧ Labs s'.cdb ends r.children ∧ s'.log = s.log ∧ s'.q = s.q ∧
-    (s.cdb.classes.Nodup → s'.cdb.classes.Nodup) := by
+    (s.cdb.classes.Nodup → s'.cdb.classes.Nodup) ∧ s'.rules = s.rules ∧ s'.eqv = s.eqv ∧
+    (∀ u : Universe, CacheOK u s.cdb → CacheOK u s'.cdb) := by
   unfold E2.labelRule at h
   split at h
   · cases h
   · simp only [Option.some.injEq, Prod.mk.injEq] at h
     obtain ⟨a, b⟩ := labelFold r.children s.cdb [] [] .nil
     have nd := labelFold_nodup r.children s.cdb []
+    have ca := fun u : Universe => labelFold_cache (u := u) r.children s.cdb []
     simp only [List.nil_append] at b
-    generalize List.foldl _ (s.cdb, []) r.children = res at a b h nd
+    generalize List.foldl _ (s.cdb, []) r.children = res at a b h nd ca
     obtain ⟨c1, es⟩ := res
-    simp only at a b h nd
+    simp only at a b h nd ca
     by_cases hp : (r.parent == x) = true
     · simp only [hp, ↓reduceIte] at h
       obtain ⟨h1, h2, h3⟩ := h
       subst h1; subst h2; subst h3
       have : r.parent = x := by simpa using hp
-      refine ⟨a, ?_, b, rfl, rfl, nd⟩
+      refine ⟨a, ?_, b, rfl, rfl, nd, rfl, rfl, ca⟩
       rw [this]; exact hx.ext a
     · simp only [hp] at h
       obtain ⟨h1, h2, h3⟩ := h
       subst h1; subst h2; subst h3
       obtain ⟨e1, l1⟩ := getLabel_spec c1 r.parent
-      exact ⟨a.trans e1, l1, Labs.ext e1 b, rfl, rfl, fun h0 => getLabel_nodup c1 r.parent (nd h0)⟩
+      exact ⟨a.trans e1, l1, Labs.ext e1 b, rfl, rfl, fun h0 => getLabel_nodup c1 r.parent (nd h0), rfl, rfl,
+        fun u h0 => getLabel_cache (ca u h0) r.parent⟩
 
 theorem Labs.zip_mem {c : CDB} : ∀ {ls xs : List Nat}, Labs c ls xs → ∀ p, p ∈ xs.zip ls → lab c p.2 p.1
   | _, _, .nil, p, hp => by simp at hp
@@ -251,6 +477,10 @@ theorem Labs.zip_mem {c : CDB} : ∀ {ls xs : List Nat}, Labs c ls xs → ∀ p,
 structure WFU (u : Universe) : Prop where
   sym : ∀ σ, σ ∈ u.sym → ∀ x r, r ∈ u.apply σ x → r.children.length = 1
   inf : ∀ σ, σ ∈ u.inferral → ∀ x r, r ∈ u.apply σ x → r.children.length = 1
+  /-- the strategy contract on emptiness: children not declared possibly empty are not empty -/
+  ne : ∀ σ x r, r ∈ u.apply σ x → r.flags.possiblyEmpty = false → ∀ c, c ∈ r.children → u.empty.getD c false = false
+  /-- a class and its symmetric images are empty together -/
+  symE : ∀ σ, σ ∈ u.sym → ∀ x r, r ∈ u.apply σ x → ∀ c, c ∈ r.children → u.empty.getD c false = u.empty.getD x false
 
 theorem mem_all_ver {u : Universe} {σ : Nat} (h : σ ∈ u.ver) : σ ∈ allStrats u := by
   unfold allStrats; simp [h]
@@ -260,8 +490,9 @@ theorem mem_all_inf {u : Universe} {σ : Nat} (h : σ ∈ u.inferral) : σ ∈ a
   unfold allStrats; simp [h]
 
 theorem Good.grow {u : Universe} {s0 s s' : E2.St} (h : Good u s0 s) (hlog : s'.log = s.log) (he : Ext s.cdb s'.cdb)
-    (hq : s'.q = s.q) (hnd : s'.cdb.classes.Nodup) : Good u s0 s' := by
-  refine ⟨⟨?_, ?_, hnd⟩, h.2.trans he⟩
+    (hq : s'.q = s.q) (hnd : s'.cdb.classes.Nodup) (hr : s'.rules = s.rules) (hv : s'.eqv = s.eqv)
+    (hcache : CacheOK u s'.cdb) : Good u s0 s' := by
+  refine ⟨⟨?_, ?_, hnd, hcache, fun k hk => (h.1.keys k (by rw [hr, hv] at hk; exact hk)).ext he⟩, h.2.trans he⟩
   · intro e hm; rw [hlog] at hm; exact (h.1.gen e hm).ext he
   · rw [hq]; exact h.1.ql.mono (fun l hl => Nat.lt_of_lt_of_le hl he.len)
 
@@ -282,8 +513,8 @@ theorem applyFold_good {u : Universe} (fuel : Nat)
   split
   · exact ⟨hb, hlb⟩
   · rename_i s1 start ends hlr
-    obtain ⟨e1, l1, l2, l3, l4, l5⟩ := labelRule_spec b x l r s1 start ends hlr hlb
-    have hb1 : Good u s0 s1 := hb.grow l3 e1 l4 (l5 hb.1.nd)
+    obtain ⟨e1, l1, l2, l3, l4, l5, l6, l7, l8⟩ := labelRule_spec b x l r s1 start ends hlr hlb
+    have hb1 : Good u s0 s1 := hb.grow l3 e1 l4 (l5 hb.1.nd) l6 l7 (l8 u hb.1.cache)
     have hg := hadd s1 start ends r hb1.1 ⟨⟨σ, x, hσ, hr⟩, l1, l2⟩
     exact ⟨hb1.trans hg, hlb.ext (e1.trans hg.2)⟩
 
@@ -306,14 +537,22 @@ theorem addRule_succ (u : Universe) (fuel : Nat) (s : E2.St) (start : Nat) (ends
   rw [E2.addRule]
   rfl
 
+theorem lab_truly {u : Universe} {c : CDB} {l x : Nat} (h : lab c l x) : TrulyEmpty u c l = u.empty.getD x false := by
+  unfold TrulyEmpty
+  unfold lab at h
+  rw [List.getD_eq_getElem?_getD, h]; rfl
+
 theorem childStep_good {u : Universe} (fuel : Nat) (r : RuleOut)
     (hT : ∀ s x l, EI u s → lab s.cdb l x → Good u s (E2.tryVerify u fuel s x l))
     (hS : ∀ s x l, EI u s → lab s.cdb l x → Good u s (E2.symExpand u fuel s x l))
-    (s0 s : E2.St) (c l : Nat) (h : Good u s0 s) (hl : lab s.cdb l c) : Good u s0 (childStep u fuel r s c l) := by
+    (s0 s : E2.St) (c l : Nat) (h : Good u s0 s) (hl : lab s.cdb l c)
+    (hne : r.flags.possiblyEmpty = false → u.empty.getD c false = false) : Good u s0 (childStep u fuel r s c l) := by
   unfold childStep
   have g1 : Good u s0 (st1 r s l) ∧ lab (st1 r s l).cdb l c := by
     unfold st1; split
-    · exact ⟨h.setEmpty l false, hl.ext ⟨[], by simp [CDB.setEmpty]⟩⟩
+    · rename_i hpe
+      have hpe' : r.flags.possiblyEmpty = false := by simpa using hpe
+      exact ⟨h.setEmpty l false (fun _ => by rw [lab_truly hl, hne hpe']), hl.ext ⟨[], by simp [CDB.setEmpty]⟩⟩
     · exact ⟨h, hl⟩
   have g2 : Good u s0 (st2 u fuel (st1 r s l) c l) ∧ lab (st2 u fuel (st1 r s l) c l).cdb l c := by
     unfold st2; split
@@ -360,17 +599,29 @@ theorem Labs.single {c : CDB} {ends xs : List Nat} (h : Labs c ends xs) (h1 : xs
     | nil => rfl
     | cons _ _ => simp at h1
 
+theorem Labs.head {c : CDB} {ends xs : List Nat} (h : Labs c ends xs) (h1 : xs.length = 1) : lab c ends.head! xs.head! := by
+  cases h with
+  | nil => simp at h1
+  | cons a t => exact a
+
 theorem symStep_good {u : Universe} (hw : WFU u) (b : Bool) (σ x l : Nat) (hσ : σ ∈ u.sym) (s0 : E2.St)
-    (acc : E2.St × List Nat) (r : RuleOut) (hr : r ∈ u.apply σ x) (h : Good u s0 acc.1) (hl : lab acc.1.cdb l x) :
+    (acc : E2.St × List Nat) (r : RuleOut) (hr : r ∈ u.apply σ x) (h : Good u s0 acc.1) (hl : lab acc.1.cdb l x)
+    (hb : b = u.empty.getD x false) :
     Good u s0 (symStep u b x l acc r).1 ∧ lab (symStep u b x l acc r).1.cdb l x := by
   unfold symStep
   split
   · exact ⟨h, hl⟩
   · rename_i s1 start ends hlr
-    obtain ⟨e1, l1, l2, l3, l4, l5⟩ := labelRule_spec acc.1 x l r s1 start ends hlr hl
-    have h1 : Good u s0 s1 := h.grow l3 e1 l4 (l5 h.1.nd)
-    have h2 := h1.setEmpty ends.head! b
+    obtain ⟨e1, l1, l2, l3, l4, l5, l6, l7, l8⟩ := labelRule_spec acc.1 x l r s1 start ends hlr hl
+    have h1 : Good u s0 s1 := h.grow l3 e1 l4 (l5 h.1.nd) l6 l7 (l8 u h.1.cache)
     have hs := Labs.single l2 (hw.sym σ hσ x r hr)
+    have hc1 := Labs.head l2 (hw.sym σ hσ x r hr)
+    have hmem : r.children.head! ∈ r.children := by
+      have := hw.sym σ hσ x r hr
+      cases hch : r.children with
+      | nil => rw [hch] at this; simp at this
+      | cons a t => exact List.mem_cons_self
+    have h2 := h1.setEmpty ends.head! b (fun _ => by rw [lab_truly hc1, hb, hw.symE σ hσ x r hr _ hmem])
     have he2 : Ext s1.cdb ({ s1 with cdb := s1.cdb.setEmpty ends.head! b } : E2.St).cdb := ⟨[], by simp [CDB.setEmpty]⟩
     have ha : ArgsOK u ({ s1 with cdb := s1.cdb.setEmpty ends.head! b } : E2.St).cdb start [ends.head!] r :=
       ⟨⟨σ, x, mem_all_sym hσ, hr⟩, l1.ext he2, by rw [← hs]; exact Labs.ext he2 l2⟩
@@ -397,7 +648,9 @@ theorem engine_mutual {u : Universe} (hw : WFU u) : ∀ fuel : Nat,
       have hf : Good u s ((r.children.zip ends).foldl (fun s (ce : Nat × Nat) => childStep u fuel r s ce.1 ce.2) s) := by
         refine foldl_inv _ (fun s' => Good u s s') _ _ (Good.refl h) ?_
         intro b ce hce hb
+        obtain ⟨σ0, x0, _, hr0⟩ := ha.prov
         exact childStep_good fuel r hT hS s b ce.1 ce.2 hb ((Labs.zip_mem ha.en ce hce).ext hb.2)
+          (fun hpe => hw.ne σ0 x0 r hr0 hpe ce.1 (List.of_mem_zip hce).1)
       generalize (r.children.zip ends).foldl (fun s (ce : Nat × Nat) => childStep u fuel r s ce.1 ce.2) s = s1 at hf
       have hg : Good u s ((fun s => if r.flags.ignoreParent then { s with q := s.q.setStop start } else s) s1) := by
         simp only
@@ -411,14 +664,17 @@ theorem engine_mutual {u : Universe} (hw : WFU u) : ∀ fuel : Nat,
       split
       · exact Good.refl h
       · simp only
-        have g0 : ∀ s1 : E2.St, s1.log = s.log → s1.cdb = (CDB.isEmpty u s.cdb l).fst → s1.q = s.q → Good u s s1 ∧ lab s1.cdb l x := by
-          intro s1 e1 e2 e3
+        have g0 : ∀ s1 : E2.St, s1.log = s.log → s1.cdb = (CDB.isEmpty u s.cdb l).fst → s1.q = s.q → s1.rules = s.rules →
+            s1.eqv = s.eqv → Good u s s1 ∧ lab s1.cdb l x := by
+          intro s1 e1 e2 e3 e4 e5
           have g : Good u s s1 := (Good.refl h).of (by rw [e1]; exact fun _ x => x) (by rw [e2]; exact isEmpty_classes u s.cdb l)
-            (by rw [e3]; exact h.ql)
+            (by rw [e3]; exact h.ql) (by rw [e4, e5]; exact fun _ x => x) (by rw [e2]; exact (isEmpty_truth h.cache l).2)
           exact ⟨g, hl.ext g.2⟩
         split
-        · refine (g0 _ ?_ ?_ ?_).1 <;> rfl
-        · refine (foldl_inv _ (fun s' => Good u s s' ∧ lab s'.cdb l x) _ _ (g0 _ ?_ ?_ ?_) ?_).1
+        · refine (g0 _ ?_ ?_ ?_ ?_ ?_).1 <;> rfl
+        · refine (foldl_inv _ (fun s' => Good u s s' ∧ lab s'.cdb l x) _ _ (g0 _ ?_ ?_ ?_ ?_ ?_) ?_).1
+          · rfl
+          · rfl
           · rfl
           · rfl
           · rfl
@@ -435,8 +691,8 @@ theorem engine_mutual {u : Universe} (hw : WFU u) : ∀ fuel : Nat,
         intro acc σ hσ hacc
         refine foldl_inv _ (fun (acc : E2.St × List Nat) => Good u s acc.1 ∧ lab acc.1.cdb l x) _ _ hacc ?_
         intro acc2 r hr ⟨a1, a2⟩
-        exact symStep_good hw _ σ x l hσ s acc2 r hr a1 a2
-      exact hf.1.congr rfl rfl rfl
+        exact symStep_good hw _ σ x l hσ s acc2 r hr a1 a2 (by rw [(isEmpty_truth h.cache l).1, lab_truly hl])
+      exact hf.1.congr rfl rfl rfl rfl rfl
 
 theorem firstInf_spec (u : Universe) (s : E2.St) (x l : Nat) (skip : Option Nat) :
     ∀ (strats : List Nat) (i i' σ : Nat) (r : RuleOut) (s' : E2.St) (start : Nat) (ends : List Nat),
@@ -467,11 +723,6 @@ theorem firstInf_spec (u : Universe) (s : E2.St) (x l : Nat) (skip : Option Nat)
         subst e3; subst e4
         exact ⟨List.mem_cons_self, hr1, ht⟩
 
-theorem Labs.head {c : CDB} {ends xs : List Nat} (h : Labs c ends xs) (h1 : xs.length = 1) : lab c ends.head! xs.head! := by
-  cases h with
-  | nil => simp at h1
-  | cons a t => exact a
-
 def infBody (u : Universe) (fuel : Nat) (sa : E2.St) (x l : Nat) (strats : List Nat) (skip : Option Nat) : E2.St :=
   match E2.firstInf u sa x l skip 0 strats with
   | none => sa
@@ -497,7 +748,7 @@ theorem infExpand_good {u : Universe} (hw : WFU u) : ∀ (fuel : Nat) (s : E2.St
     rw [infExpand_succ]
     split
     · exact Good.refl h
-    · have g0 : Good u s ({ s with infExp := l :: s.infExp } : E2.St) := (Good.refl h).congr rfl rfl rfl
+    · have g0 : Good u s ({ s with infExp := l :: s.infExp } : E2.St) := (Good.refl h).congr rfl rfl rfl rfl rfl
       generalize ({ s with infExp := l :: s.infExp } : E2.St) = sa at g0 ⊢
       have hla : lab sa.cdb l x := hl.ext g0.2
       have gm : Good u s (infBody u fuel sa x l strats skip) := by
@@ -506,8 +757,8 @@ theorem infExpand_good {u : Universe} (hw : WFU u) : ∀ (fuel : Nat) (s : E2.St
         · exact g0
         · rename_i i σ r s1 start ends hfi
           obtain ⟨m1, m2, m3⟩ := firstInf_spec u sa x l skip strats 0 i σ r s1 start ends hfi
-          obtain ⟨e1, l1, l2, l3, l4, l5⟩ := labelRule_spec sa x l r s1 start ends m3 hla
-          have h1 : Good u s s1 := g0.grow l3 e1 l4 (l5 g0.1.nd)
+          obtain ⟨e1, l1, l2, l3, l4, l5, l6, l7, l8⟩ := labelRule_spec sa x l r s1 start ends m3 hla
+          have h1 : Good u s s1 := g0.grow l3 e1 l4 (l5 g0.1.nd) l6 l7 (l8 u g0.1.cache)
           have hadd := (engine_mutual hw fuel).1 s1 start ends r h1.1 ⟨⟨σ, x, mem_all_inf (hst σ m1), m2⟩, l1, l2⟩
           have h2 := h1.trans hadd
           have h3 := h2.withQ _ (h2.1.ql.setNotInferrable start)
@@ -620,20 +871,27 @@ theorem stepEngine_good {u : Universe} (hw : WFU u) (fuel : Nat) (s : E2.St) (h 
 
 theorem initEngine_good {u : Universe} (hw : WFU u) (fuel c : Nat) : EI u (E2.initEngine u fuel c) := by
   have key : ∀ s0 : E2.St, s0.log = [] → s0.cdb = { classes := [c], empties := [none] } →
-      s0.q = (Q.init (E2.packOf u)).add (E2.packOf u) 0 →
+      s0.q = (Q.init (E2.packOf u)).add (E2.packOf u) 0 → s0.rules = [] → s0.eqv = [] →
       EI u (if !u.sym.isEmpty then E2.symExpand u fuel (E2.tryVerify u fuel s0 c 0) c 0 else E2.tryVerify u fuel s0 c 0) := by
-    intro s0 e1 e2 e3
+    intro s0 e1 e2 e3 e4 e5
     have h0 : EI u s0 := by
-      refine ⟨fun e he => (by rw [e1] at he; cases he), ?_, by rw [e2]; simp⟩
-      rw [e2, e3]
-      exact (QL.init _ _).add 0 (by simp)
+      refine ⟨fun e he => (by rw [e1] at he; cases he), ?_, by rw [e2]; simp, ?_, ?_⟩
+      · rw [e2, e3]
+        exact (QL.init _ _).add 0 (by simp)
+      · rw [e2]
+        refine ⟨rfl, ?_⟩
+        intro l b hl
+        cases l with
+        | zero => simp at hl
+        | succ l => simp at hl
+      · intro k hk; rw [e4, e5] at hk; cases hk
     have hl : lab s0.cdb 0 c := by rw [e2]; simp [lab]
     have h1 := (engine_mutual hw fuel).2.1 s0 c 0 h0 hl
     split
     · exact (h1.trans ((engine_mutual hw fuel).2.2 _ c 0 h1.1 (lab.ext hl h1.2))).1
     · exact h1.1
   unfold E2.initEngine
-  exact key _ rfl rfl rfl
+  exact key _ rfl rfl rfl rfl rfl
 
 /-- **C04 (engine model).** After any sequence of expansion and search transitions from the initial state, every recorded
 event is genuine - the start label is the label of the parent class of a rule that a strategy of the pack produces for some
@@ -649,8 +907,8 @@ theorem engine_events_genuine {u : Universe} (hw : WFU u) (fuel c : Nat) (iter :
   | search =>
     simp only [E2.step]
     split
-    · exact ((Good.refl h).congr (s' := (E2.searchIter s 0).1) rfl rfl rfl).1
-    · exact ((Good.refl h).congr (s' := (E2.search s 0).1) rfl rfl rfl).1
+    · exact ((Good.refl h).congr (s' := (E2.searchIter s 0).1) rfl rfl rfl rfl rfl).1
+    · exact ((Good.refl h).congr (s' := (E2.search s 0).1) rfl rfl rfl rfl rfl).1
 #print axioms engine_events_genuine
 
 /-- non-vacuity: a universe (one expansion strategy splitting class 0 into 1 and 2, a verification strategy for the classes >= 1)
@@ -663,7 +921,17 @@ def exampleU : Universe :=
       else [],
     initial := [], inferral := [], expansion := [[0]], ver := [1], sym := [], expandVerified := false }
 
-theorem exampleU_wf : WFU exampleU := ⟨fun σ h => (by cases h), fun σ h => (by cases h)⟩
+theorem exampleU_wf : WFU exampleU := by
+  refine ⟨fun σ h => (by cases h), fun σ h => (by cases h), ?_, fun σ h => (by cases h)⟩
+  intro σ x r hr _ c _
+  have : ∀ c, exampleU.empty.getD c false = false := by
+    intro c
+    match c with
+    | 0 => rfl
+    | 1 => rfl
+    | 2 => rfl
+    | _ + 3 => rfl
+  exact this c
 
 example : ((E2.exec exampleU 20 false [.expand, .expand, .search] (E2.initEngine exampleU 20 0)).log.map (fun e => (e.start, e.ends))) =
     [(1, []), (2, []), (0, [1, 2])] := by decide +kernel
@@ -687,3 +955,12 @@ theorem engine_labels_bijective {u : Universe} (hw : WFU u) (fuel c : Nat) (iter
     unfold lab at h1 h2
     rw [h1] at h2; injection h2
 #print axioms engine_labels_bijective
+
+/-- **C04 (engine model): stored keys and emptiness cache.** In every reachable state, every key stored in the rule database
+is the start label of a genuine rule with the sorted labels of its children - a child left out only if its class is truly
+empty and the strategy declared its children possibly empty - and every cached emptiness is the class's own answer. -/
+theorem engine_keys_clean {u : Universe} (hw : WFU u) (fuel c : Nat) (iter : Bool) (ops : List E2.Op) :
+    let s := E2.exec u fuel iter ops (E2.initEngine u fuel c)
+    (∀ k, k ∈ s.rules ++ s.eqv → KeyClean u s.cdb k) ∧ CacheOK u s.cdb :=
+  ⟨(engine_events_genuine hw fuel c iter ops).keys, (engine_events_genuine hw fuel c iter ops).cache⟩
+#print axioms engine_keys_clean
